@@ -186,15 +186,25 @@ XSetViol(pre, batch, err, post, tag) ==
   \cup FailIf(ok /\ XWellFormedWhy(post, xk.max) # "ok", V("WellFormed", "extreme:" \o tag \o ":" \o XWellFormedWhy(post, xk.max)))
   \cup FailIf(ok # acc, V("MatchesRef", "extreme:" \o tag \o (IF ok THEN ":accepted_invalid_batch" ELSE ":refused_valid_batch:" \o err)))
   \cup FailIf(ok /\ acc /\ ~XResultPowersOK(pre, batch, post), V("MatchesRef", "extreme:" \o tag \o ":members_or_powers"))
+  \* exact priorities, on limbs: newcomers enter at -(T + floor(T/8)), then rescale, centre, canonical order
+  \cup FailIf(ok /\ acc /\ Len(batch) > 0 /\ XSane(pre) /\ XResultPowersOK(pre, batch, post)
+                /\ ~XSameVals(post, XRefResult(pre, batch)),
+              V("MatchesRef", "extreme:" \o tag \o ":priorities"))
   \cup FailIf(ok /\ Len(post) > 0 /\ ~(XWindowOK(post) /\ XCentred(post)), V("PrioBounded", "extreme:" \o tag))
   \cup FailIf(Len(post) > 0 /\ ~XNoClip(post, xk.imax, xk.imin), V("NoClip", "extreme:" \o tag))
 
 StepXNew(e) ==
-  LET k == [max |-> e.max, imax |-> e.imax, imin |-> e.imin] IN
+  LET k == [max |-> e.max, imax |-> e.imax, imin |-> e.imin]
+      good == Len(e.batch) > 0 /\ (\A i \in DOMAIN e.batch : e.batch[i].p.s > 0) /\ XRefAccepts(<< >>, e.batch, e.max)
+  IN
   /\ xcur' = e.post /\ xk' = k
   /\ viol' = viol
        \cup FailIf(e.err = "none" /\ Len(e.post) > 0 /\ XWellFormedWhy(e.post, e.max) # "ok", V("WellFormed", "extreme:new:" \o XWellFormedWhy(e.post, e.max)))
        \cup FailIf(e.err = "none" /\ Len(e.post) > 0 /\ ~XNoClip(e.post, e.imax, e.imin), V("NoClip", "extreme:new"))
+       \cup FailIf(good /\ e.err # "none", V("MatchesRef", "extreme:new:refused_valid_set"))
+       \cup FailIf(good /\ e.err = "none"
+                     /\ LET r == XRefIncrement(XRefResult(<< >>, e.batch), 1) IN ~XSameVals(e.post, r.vals) \/ e.prop # r.prop,
+                   V("MatchesRef", "extreme:new:values"))
   /\ UNCHANGED <<drift, cur, fresh>> /\ UnchangedStore
 
 StepXUpdate(e) ==
@@ -214,6 +224,12 @@ StepXInc(e) ==
                                         (e.post[i].a # xcur[i].a \/ e.post[i].p # xcur[i].p)),
                    V("RotationExact", "extreme:members_or_powers_changed"))
        \cup FailIf(e.err = "none" /\ Len(e.post) > 0 /\ ~XNoClip(e.post, xk.imax, xk.imin), V("NoClip", "extreme:rotation"))
+       \* the reference weighted round-robin, on limbs: normalise once, e.times rounds
+       \cup (IF e.err = "none" /\ e.times > 0 /\ Len(xcur) > 0 /\ XSane(xcur)
+            THEN LET r == XRefIncrement(xcur, e.times) IN
+                 FailIf(~XSameVals(e.post, r.vals), V("RotationExact", "extreme:priorities"))
+                 \cup FailIf(e.prop # r.prop, V("RotationExact", "extreme:proposer"))
+            ELSE {})
        \cup FailIf(e.err = "none" /\ Len(e.post) > 0 /\ ~XCentred(e.post), V("PrioBounded", "extreme:rotation_not_centred"))
   /\ UNCHANGED <<drift, cur, fresh>> /\ UnchangedStore
 
